@@ -302,7 +302,7 @@ PLANS = {
         "stages": [dict(main_stage(60, 300, tier, death_is_violation=True), needs=["py", "cli"]),
                    main_stage(60, 300, tier, build="rel", name="rel", death_is_violation=True),
                    dict(main_stage(30, 30, tier, name="d24probe", death_is_violation=True, shards=1), abort_probe="D24")],
-        "require": ["sink_fault_points", "dictionaries_with_every_failure_offset_enumerated", "mutated_inputs", "inputs_accepted", "descriptions_tried", "py_sink_fault_points", "py_user_sink_fault_points", "cli_sink_fault_points",
+        "require": ["sink_fault_points", "dictionaries_with_every_failure_offset_enumerated", "mutated_inputs", "inputs_accepted", "descriptions_tried", "longer_call_sequences_accepted", "longer_call_sequences_rejected", "py_sink_fault_points", "py_user_sink_fault_points", "cli_sink_fault_points",
                     "inputs_rejected_with_error", "accepted_dictionaries_loaded", "analyses_with_accepted_dictionaries", "probe_scenarios",
                     "rel.sink_fault_points", "rel.mutated_inputs"],
         "rule": "(b, the fault enumeration) for every 4th generated dictionary the output sink is made to fail after k bytes for EVERY k in "
@@ -315,7 +315,7 @@ PLANS = {
                 "quotes, 2-300 homographs; totality under a panic hook in a debug-assertion and a release build; inputs that are invalid in a "
                 "way the statement names must be rejected. (c) every accepted dictionary is loaded and texts made of its keys are analysed in "
                 "modes A/B/C under the bounds hooks and the partition oracle. distinct_nontrivial = distinct mutated inputs that were handled "
-                "correctly + dictionaries whose sink offsets were enumerated. Call sequences: documented; error of resolve() ignored; compile() without resolve(); without read_conn(); error of read_conn() ignored - never a panic, and success only with a valid dictionary. The builders behind sudachipy.build_system_dic / build_user_dic and `sudachi build` are run with the output file cut off after L bytes by RLIMIT_FSIZE (L sampled incl. the ends and the 8 KiB buffer boundaries): success with a shorter file is a sink failure reported as success. Descriptions of 0/255/256/257/1000 bytes and multi-byte ones around 256 bytes / characters / UTF-16 units: success must give a loadable dictionary that stores the same description.",
+                "correctly + dictionaries whose sink offsets were enumerated. Call sequences: documented; error of resolve() ignored; compile() without resolve(); without read_conn(); error of read_conn() ignored; lexicon in two parts with resolve() between them (with and without a second resolve()); a second, smaller read_conn() whose text breaks off - never a panic, and success only with a valid dictionary. The builders behind sudachipy.build_system_dic / build_user_dic and `sudachi build` are run with the output file cut off after L bytes by RLIMIT_FSIZE (L sampled incl. the ends and the 8 KiB buffer boundaries): success with a shorter file is a sink failure reported as success. Descriptions of 0/255/256/257/1000 bytes and multi-byte ones around 256 bytes / characters / UTF-16 units: success must give a loadable dictionary that stores the same description.",
         "assumptions": COMMON_ASSUMPTIONS + ["known findings D9 (split units not covering the key), D18 (user-dictionary dic_form) and D24 (stack overflow "
                                              "for a 32,767-byte key; runs alone in its own process) are exercised only by labelled probes",
                                              "mutations that disturb split references are analysed in mode C only"],
